@@ -10,7 +10,7 @@
 //
 // Parts (exhaustive products, nothing sampled):
 //
-//	enc   shape x value: WriteTo into a bytes.Buffer: bytes == reference layout (ref/refwire;
+//	enc   shape x value x writer kind: WriteTo: bytes == reference layout (ref/refwire;
 //	      NBT judged by ref/refnbt), returned n == bytes produced.
 //	dec   shape x prior state x value x source kind (history dimension): the destination variable
 //	      first holds (a) its zero value, (b) EVERY alphabet value, (c) explicit slice states nil /
@@ -19,9 +19,17 @@
 //	      ByteReader source and from a plain io.Reader. Oracle: no error, returned n == bytes
 //	      consumed == length of the encoding (tail intact), decoded == written.
 //	      thorough: a second decode into the same destination (triples prior, v1, v2).
-//	scan  field lists of length <= 3 over (shape,value) items: Marshal and Builder produce
-//	      ID + concatenated reference bytes; Packet.Scan recovers every field, destinations holding
-//	      another value before.
+//	scan  field lists of length <= 3 over (shape,value) items: Marshal (ID types int32, ~int32, int)
+//	      and Builder produce ID + concatenated reference bytes; Packet.Scan recovers every field,
+//	      destinations holding another value before.
+//	build histories on one Builder: every ordered triple of items, one WriteField+Packet step per
+//	      item: packet k is fields 0..k in order, and packets returned earlier keep their content.
+//
+// Environment dimensions: enc runs per writer kind (empty *bytes.Buffer, *bytes.Buffer that already
+// holds bytes, plain io.Writer that already holds bytes: n is the count of THIS call and the bytes
+// held before stay); dec runs per source kind (*bytes.Reader at 0, plain io.Reader, *bytes.Reader
+// that has already delivered a prefix, plain io.Reader handing out one byte per Read, *bufio.Reader
+// over a source handing out three bytes per Read).
 //
 // Unspecified (never a violation): byte counts on error paths (no error path is driven here at
 // all: only well-formed encodings are decoded); the Val of an Option whose Has is false; the
@@ -34,6 +42,7 @@
 package main
 
 import (
+	"bufio"
 	"bytes"
 	"encoding/hex"
 	"encoding/json"
@@ -54,7 +63,7 @@ var (
 	rep  *engine.Report
 	tail = []byte{0xa5, 0x5a, 0x00, 0xff, 0x80, 0x01, 0xee, 0xee}
 
-	encOps, decOps, scanOps int64
+	encOps, decOps, scanOps, buildOps int64
 )
 
 type fail struct {
@@ -67,9 +76,10 @@ type Case struct {
 	Value int    `json:"value,omitempty"`  // enc: alphabet index
 	Prior int    `json:"prior,omitempty"`  // dec: -1 zero value, 0..n-1 alphabet value, n.. extra prior state
 	Hist  []int  `json:"hist,omitempty"`   // dec: alphabet indexes decoded one after the other
-	Src   int    `json:"src,omitempty"`    // dec: 0 bytereader, 1 plain reader
-	ID    int32  `json:"id,omitempty"`     // scan
-	Items []Item `json:"fields,omitempty"` // scan
+	Src   int    `json:"src,omitempty"`    // dec: index into srcKinds
+	W     int    `json:"w,omitempty"`      // enc: index into writerKinds
+	ID    int32  `json:"id,omitempty"`     // scan, build
+	Items []Item `json:"fields,omitempty"` // scan: the field list; build: one field per WriteField+Packet step
 	KC    int    `json:"kc,omitempty"`     // combinator child-alphabet size the indexes refer to (tier dependent)
 	Human string `json:"human,omitempty"`  // readable rendering (not used by replay)
 }
@@ -85,7 +95,7 @@ type erased struct {
 	depth      int
 	n, np      int
 	noTail     bool
-	encCase    func(vi int) []fail
+	encCase    func(vi, wk int) []fail
 	decCase    func(prior int, hist []int, src int) []fail // nil, unspec=true when the statement is silent
 	unspec     func(prior int, hist []int) bool
 	human      func(prior int, hist []int) string
@@ -95,11 +105,57 @@ type erased struct {
 	show       func(vi int) string
 }
 
-func srcName(s int) string {
-	if s == 0 {
-		return "bytereader"
+// srcKinds: what the decoder reads from. The stream is the same in all cases (reference bytes +
+// sentinel tail); the kinds differ in the optional interfaces they offer, in where the stream
+// starts inside the source, and in how many bytes one Read call hands out.
+var srcKinds = []string{
+	"bytereader",           // *bytes.Reader positioned at 0
+	"plain",                // io.Reader only, every Read filled completely
+	"bytereader-at-offset", // *bytes.Reader that has already delivered a 3-byte prefix (a field in the middle of a packet)
+	"plain-1-byte-reads",   // io.Reader only, every Read returns at most one byte (legal short reads)
+	"bufio-3-byte-reads",   // *bufio.Reader (a ByteReader, as in go-mc's own net.Conn) over a source that hands out at most 3 bytes per Read: short reads AND ReadByte
+}
+
+func srcName(s int) string { return srcKinds[s] }
+
+var srcPrefix = []byte{0x81, 0x82, 0x03}
+
+// dribbleReader: io.Reader only; never more than Max bytes per Read.
+type dribbleReader struct {
+	Data []byte
+	Pos  int
+	Max  int
+}
+
+func (d *dribbleReader) Read(b []byte) (int, error) {
+	if len(b) == 0 {
+		return 0, nil
 	}
-	return "plain"
+	if d.Pos >= len(d.Data) {
+		return 0, io.EOF
+	}
+	if len(b) > d.Max {
+		b = b[:d.Max]
+	}
+	n := copy(b, d.Data[d.Pos:])
+	d.Pos += n
+	return n, nil
+}
+
+// writerKinds: what the encoder writes to. The byte count must be that of THIS call.
+var writerKinds = []string{
+	"empty-buffer",     // fresh *bytes.Buffer
+	"prefilled-buffer", // *bytes.Buffer already holding 3 bytes (any field but the first of a packet)
+	"plain-writer",     // io.Writer only, already holding 3 bytes
+}
+
+var writerPrefix = []byte{0xde, 0xad, 0xbe}
+
+type plainWriter struct{ b []byte }
+
+func (p *plainWriter) Write(b []byte) (int, error) {
+	p.b = append(p.b, b...)
+	return len(b), nil
 }
 
 func clipHex(b []byte) string {
@@ -147,30 +203,50 @@ func erase[T any](c *codec[T]) *erased {
 		p := &dst
 		return c.decoder(p), func(vi int) string { return c.diff(c.gen(vi), *p) }
 	}
-	e.encCase = func(vi int) (fails []fail) {
+	e.encCase = func(vi, wk int) (fails []fail) {
 		atomic.AddInt64(&encOps, 1)
 		v := c.gen(vi)
 		want := c.ref(nil, c.gen(vi))
 		var buf bytes.Buffer
+		var pw plainWriter
+		var w io.Writer = &buf
+		held := 0
+		switch wk {
+		case 1:
+			buf.Write(writerPrefix)
+			held = len(writerPrefix)
+		case 2:
+			pw.b = append(pw.b, writerPrefix...)
+			held = len(writerPrefix)
+			w = &pw
+		}
 		var n int64
 		var err error
-		kind, frame, panicked := engine.Guard(func() { n, err = c.encoder(v).WriteTo(&buf) })
-		what := fmt.Sprintf("%s value %s", c.name, c.show(c.gen(vi)))
+		kind, frame, panicked := engine.Guard(func() { n, err = c.encoder(v).WriteTo(w) })
+		what := fmt.Sprintf("%s value %s into a writer [%s]", c.name, c.show(c.gen(vi)), writerKinds[wk])
 		if panicked {
 			return []fail{{"enc/panic/" + frame + "/" + kind, what + ": WriteTo panicked: " + kind + " in " + frame}}
 		}
 		if err != nil {
 			return []fail{{"enc/error-on-accepting-writer/" + c.kind, what + ": WriteTo returned " + err.Error()}}
 		}
-		if n != int64(buf.Len()) {
-			fails = append(fails, fail{"enc/n-differs-from-bytes-produced/" + c.kind, fmt.Sprintf("%s: WriteTo returned n=%d, the writer received %d bytes", what, n, buf.Len())})
+		all := buf.Bytes()
+		if wk == 2 {
+			all = pw.b
+		}
+		if len(all) < held || !bytes.Equal(all[:held], writerPrefix[:held]) {
+			return []fail{{"enc/bytes-already-in-the-writer-changed/" + c.kind, fmt.Sprintf("%s: the writer held %x before, now starts with %s", what, writerPrefix[:held], clipHex(all))}}
+		}
+		got := all[held:]
+		if n != int64(len(got)) {
+			fails = append(fails, fail{"enc/n-differs-from-bytes-produced/" + c.kind, fmt.Sprintf("%s: WriteTo returned n=%d, the writer received %d bytes from this call (it held %d before)", what, n, len(got), held)})
 		}
 		if c.wireEq != nil {
-			if msg := c.wireEq(buf.Bytes(), c.gen(vi)); msg != "" {
-				fails = append(fails, fail{"enc/wire-bytes-differ-from-layout/" + c.kind, fmt.Sprintf("%s: wrote %s: %s", what, clipHex(buf.Bytes()), msg)})
+			if msg := c.wireEq(got, c.gen(vi)); msg != "" {
+				fails = append(fails, fail{"enc/wire-bytes-differ-from-layout/" + c.kind, fmt.Sprintf("%s: wrote %s: %s", what, clipHex(got), msg)})
 			}
-		} else if !bytes.Equal(buf.Bytes(), want) {
-			fails = append(fails, fail{"enc/wire-bytes-differ-from-layout/" + c.kind, fmt.Sprintf("%s: wrote %s, the protocol layout is %s", what, clipHex(buf.Bytes()), clipHex(want))})
+		} else if !bytes.Equal(got, want) {
+			fails = append(fails, fail{"enc/wire-bytes-differ-from-layout/" + c.kind, fmt.Sprintf("%s: wrote %s, the protocol layout is %s", what, clipHex(got), clipHex(want))})
 		}
 		return fails
 	}
@@ -184,7 +260,16 @@ func erase[T any](c *codec[T]) *erased {
 	}
 	e.decCase = func(prior int, hist []int, src int) (fails []fail) {
 		dst, priorKind := priorState(c, prior)
-		before := c.show(dst)
+		// the description of the destination's previous content is only needed for a failure
+		// report: rebuilt on demand (the prior state of step 0 is reproducible, later steps hold
+		// the value decoded by the step before)
+		before := func(step int) string {
+			if step == 0 {
+				p, _ := priorState(c, prior)
+				return c.show(p)
+			}
+			return c.show(c.gen(hist[step-1])) + " (decoded by the previous step)"
+		}
 		for step, vi := range hist {
 			atomic.AddInt64(&decOps, 1)
 			want := c.gen(vi)
@@ -194,20 +279,37 @@ func erase[T any](c *codec[T]) *erased {
 				stream = append(append(make([]byte, 0, len(wire)+len(tail)), wire...), tail...)
 			}
 			var r io.Reader
-			br := bytes.NewReader(stream)
-			prd := &engine.PlainReader{Data: stream}
-			if src == 0 {
-				r = br
-			} else {
-				r = prd
+			var taken func() int // bytes of `stream` the source has handed out
+			switch src {
+			case 0:
+				br := bytes.NewReader(stream)
+				r, taken = br, func() int { return len(stream) - br.Len() }
+			case 1:
+				prd := &engine.PlainReader{Data: stream}
+				r, taken = prd, func() int { return prd.Pos }
+			case 2:
+				full := append(append(make([]byte, 0, len(srcPrefix)+len(stream)), srcPrefix...), stream...)
+				br := bytes.NewReader(full)
+				var skip [3]byte
+				if k, _ := io.ReadFull(br, skip[:]); k != len(srcPrefix) {
+					engine.HarnessError("cannot position the source")
+				}
+				r, taken = br, func() int { return len(stream) - br.Len() }
+			case 3:
+				dr := &dribbleReader{Data: stream, Max: 1}
+				r, taken = dr, func() int { return dr.Pos }
+			case 4:
+				dr := &dribbleReader{Data: stream, Max: 3}
+				bf := bufio.NewReaderSize(dr, 16)
+				// what the decoder took is what left the underlying source minus what bufio still holds
+				r, taken = bf, func() int { return dr.Pos - bf.Buffered() }
+			default:
+				engine.HarnessError("unknown source kind %d", src)
 			}
 			var n int64
 			var err error
 			kind, frame, panicked := engine.Guard(func() { n, err = c.decoder(&dst).ReadFrom(r) })
-			consumed := prd.Pos
-			if src == 0 {
-				consumed = len(stream) - br.Len()
-			}
+			consumed := taken()
 			if step > 0 {
 				priorKind = "destination-held-another-value"
 			}
@@ -215,24 +317,25 @@ func erase[T any](c *codec[T]) *erased {
 			if prior < 0 && step == 0 {
 				reuse = "fresh-destination"
 			}
-			what := fmt.Sprintf("%s: decoding %s (%s) from a %s source into a destination that held %s [%s]", c.name, c.show(c.gen(vi)), clipHex(wire), srcName(src), before, priorKind)
+			what := func() string {
+				return fmt.Sprintf("%s: decoding %s (%s) from a %s source into a destination that held %s [%s]", c.name, c.show(c.gen(vi)), clipHex(wire), srcName(src), before(step), priorKind)
+			}
 			if panicked {
-				return append(fails, fail{"dec/panic/" + frame + "/" + kind + "/" + reuse, what + " panicked: " + kind + " in " + frame})
+				return append(fails, fail{"dec/panic/" + frame + "/" + kind + "/" + reuse, what() + " panicked: " + kind + " in " + frame})
 			}
 			if err != nil {
-				return append(fails, fail{"dec/error-on-valid-encoding/" + c.kind + "/" + srcName(src) + "/" + reuse, what + " returned error: " + err.Error()})
+				return append(fails, fail{"dec/error-on-valid-encoding/" + c.kind + "/" + srcName(src) + "/" + reuse, what() + " returned error: " + err.Error()})
 			}
 			if n != int64(consumed) {
-				fails = append(fails, fail{"dec/n-differs-from-bytes-consumed/" + c.kind + "/" + srcName(src), fmt.Sprintf("%s: ReadFrom returned n=%d but %d bytes were taken from the source", what, n, consumed)})
+				fails = append(fails, fail{"dec/n-differs-from-bytes-consumed/" + c.kind + "/" + srcName(src), fmt.Sprintf("%s: ReadFrom returned n=%d but %d bytes were taken from the source", what(), n, consumed)})
 			}
 			if consumed != len(wire) {
-				fails = append(fails, fail{"dec/consumed-differs-from-encoding-length/" + c.kind + "/" + srcName(src), fmt.Sprintf("%s: %d bytes taken from the source, the encoding has %d (tail of %d sentinel bytes follows)", what, consumed, len(wire), len(stream)-len(wire))})
+				fails = append(fails, fail{"dec/consumed-differs-from-encoding-length/" + c.kind + "/" + srcName(src), fmt.Sprintf("%s: %d bytes taken from the source, the encoding has %d (tail of %d sentinel bytes follows)", what(), consumed, len(wire), len(stream)-len(wire))})
 			}
 			if d := c.diff(c.gen(vi), dst); d != "" {
-				fails = append(fails, fail{"dec/decoded-differs-from-written/" + d + "/" + reuse, fmt.Sprintf("%s: destination now holds %s", what, c.show(dst))})
+				fails = append(fails, fail{"dec/decoded-differs-from-written/" + d + "/" + reuse, fmt.Sprintf("%s: destination now holds %s", what(), c.show(dst))})
 				return fails
 			}
-			before = c.show(dst)
 		}
 		return fails
 	}
@@ -356,6 +459,7 @@ func buildShapes() {
 	expand1[pk.Angle, *pk.Angle](leafAngle())
 	expand1[pk.UUID, *pk.UUID](leafUUID())
 	expand1[pk.BitSet, *pk.BitSet](leafBitSet())
+	emit(erase(leafStringMaxChars()))
 	id := leafIdentifier()
 	id.name = "Identifier" // type alias of String: registered under its own name with its own alphabet
 	emit(erase(id))
@@ -391,8 +495,8 @@ func scanItems() []scanItem {
 	var items []scanItem
 	for _, e := range shapes {
 		if e.depth == 0 || scanComposite[e.name] {
-			if len(e.name) > 8 && e.name[:8] == "AryLong[" {
-				continue
+			if len(e.name) > 8 && e.name[:8] == "AryLong[" || e.name == "String(32767 characters)" {
+				continue // large values: judged in enc/dec only
 			}
 			items = append(items, scanItem{e, 1 % e.n})
 			if e.n > 2 {
@@ -434,10 +538,11 @@ func judgeScan(c Case) (fails []fail) {
 		names += e.name + "=" + e.show(it.Value)
 	}
 	what := fmt.Sprintf("fields (%s), id %d", names, c.ID)
-	var p1, p2, p3 pk.Packet
+	var p1, p2, p3, p4 pk.Packet
 	kind, frame, panicked := engine.Guard(func() {
 		p1 = pk.Marshal(c.ID, encs...)
 		p3 = pk.Marshal(myID(c.ID), encs...)
+		p4 = pk.Marshal(int(c.ID), encs...)
 		var b pk.Builder
 		if len(encs) > 0 {
 			b.WriteField(encs[0])
@@ -448,7 +553,7 @@ func judgeScan(c Case) (fails []fail) {
 	if panicked {
 		return []fail{{"scan/Marshal-or-Builder/panic/" + frame + "/" + kind, what + ": panicked " + kind}}
 	}
-	if p1.ID != c.ID || !bytes.Equal(p1.Data, want) || p3.ID != c.ID || !bytes.Equal(p3.Data, want) {
+	if p1.ID != c.ID || !bytes.Equal(p1.Data, want) || p3.ID != c.ID || !bytes.Equal(p3.Data, want) || p4.ID != c.ID || !bytes.Equal(p4.Data, want) {
 		fails = append(fails, fail{"scan/Marshal/packet-differs-from-fields-in-order", fmt.Sprintf("%s: Marshal produced id=%d data=%s, want %s", what, p1.ID, clipHex(p1.Data), clipHex(want))})
 	}
 	if p2.ID != c.ID || !bytes.Equal(p2.Data, want) {
@@ -481,13 +586,68 @@ func judgeScan(c Case) (fails []fail) {
 }
 
 // ---------------------------------------------------------------------------------------------
+// build part: histories on ONE Builder. Step k writes field k with WriteField and takes
+// Packet(ID+k). Nothing in go-mc resets a Builder, so the packet of step k is the composition of
+// the fields 0..k in order; a packet that has been returned keeps its content while the Builder
+// is used further (it is the caller's value: Marshal's result is exactly such a packet).
+// A packet holding only the fields written since the previous Packet call is counted as
+// unspecified (the statement does not say whether Packet starts a new packet).
+
+func judgeBuild(c Case) (fails []fail) {
+	atomic.AddInt64(&buildOps, 1)
+	var b pk.Builder
+	var cum []byte
+	var pkts []pk.Packet
+	var snaps [][]byte
+	names := ""
+	for k, it := range c.Items {
+		e := shapeIndex[it.Shape]
+		if e == nil {
+			engine.HarnessError("unknown shape %q", it.Shape)
+		}
+		if k > 0 {
+			names += ", "
+		}
+		names += e.name + "=" + e.show(it.Value)
+		own := e.refBytes(it.Value)
+		cum = append(cum, own...)
+		id := c.ID + int32(k)
+		var p pk.Packet
+		kind, frame, panicked := engine.Guard(func() {
+			b.WriteField(e.mkEnc(it.Value))
+			p = b.Packet(id)
+		})
+		what := fmt.Sprintf("one Builder, steps WriteField+Packet over fields (%s), step %d", names, k)
+		if panicked {
+			return append(fails, fail{"build/Builder/panic/" + frame + "/" + kind, what + ": panicked " + kind})
+		}
+		for j := range pkts {
+			if !bytes.Equal(pkts[j].Data, snaps[j]) {
+				return append(fails, fail{"build/Builder/returned-packet-changed-by-later-use-of-the-builder", fmt.Sprintf("%s: the packet returned at step %d held %s, after this step it holds %s", what, j, clipHex(snaps[j]), clipHex(pkts[j].Data))})
+			}
+		}
+		switch {
+		case p.ID == id && bytes.Equal(p.Data, cum):
+		case k > 0 && p.ID == id && bytes.Equal(p.Data, own):
+			rep.Unspec(1)
+			return fails
+		default:
+			return append(fails, fail{"build/Builder/packet-differs-from-fields-in-order", fmt.Sprintf("%s: Packet(%d) returned id=%d data=%s, the fields written so far are %s", what, id, p.ID, clipHex(p.Data), clipHex(cum))})
+		}
+		pkts = append(pkts, p)
+		snaps = append(snaps, append([]byte(nil), p.Data...))
+	}
+	return fails
+}
+
+// ---------------------------------------------------------------------------------------------
 
 func size(c Case) int {
 	s := 0
 	if e := shapeIndex[c.Shape]; e != nil {
 		s += e.depth*100000 + len(e.name)*100
 	}
-	s += (c.Prior + 1) + c.Value + c.Src
+	s += (c.Prior + 1) + c.Value + c.Src + c.W
 	for _, h := range c.Hist {
 		s += h * 3
 	}
@@ -518,11 +678,17 @@ func judge(c Case) []fail {
 		if e == nil {
 			engine.HarnessError("unknown shape %q", c.Shape)
 		}
-		return e.encCase(c.Value)
+		if c.W < 0 || c.W >= len(writerKinds) {
+			engine.HarnessError("unknown writer kind %d", c.W)
+		}
+		return e.encCase(c.Value, c.W)
 	case "dec":
 		e := shapeIndex[c.Shape]
 		if e == nil {
 			engine.HarnessError("unknown shape %q", c.Shape)
+		}
+		if c.Src < 0 || c.Src >= len(srcKinds) {
+			engine.HarnessError("unknown source kind %d", c.Src)
 		}
 		if e.unspec(c.Prior, c.Hist) {
 			rep.Unspec(1)
@@ -531,6 +697,8 @@ func judge(c Case) []fail {
 		return e.decCase(c.Prior, c.Hist, c.Src)
 	case "scan":
 		return judgeScan(c)
+	case "build":
+		return judgeBuild(c)
 	}
 	engine.HarnessError("unknown part %q", c.Part)
 	return nil
@@ -540,6 +708,9 @@ func runParts() {
 	thorough := rep.Thorough()
 	var encCases, decCases, scanCases int64
 	maxTriple := 64 // alphabets up to this size get the full triple history in thorough
+	// triple histories run on the first two source kinds (bytereader, plain); every source kind is
+	// crossed with every (prior state, value) pair above
+	const tripleSrcKinds = 2
 	order := make([]int, len(shapes))
 	for i := range order {
 		order[i] = i
@@ -552,13 +723,15 @@ func runParts() {
 		e := shapes[order[oi]]
 		var ec, dc int64
 		for vi := 0; vi < e.n; vi++ {
-			c := Case{Part: "enc", Shape: e.name, Value: vi}
-			record(c, e.encCase(vi))
-			ec++
+			for wk := range writerKinds {
+				c := Case{Part: "enc", Shape: e.name, Value: vi, W: wk}
+				record(c, e.encCase(vi, wk))
+				ec++
+			}
 		}
 		for prior := -1; prior < e.n+e.np; prior++ {
 			for vi := 0; vi < e.n; vi++ {
-				for src := 0; src < 2; src++ {
+				for src := range srcKinds {
 					c := Case{Part: "dec", Shape: e.name, Prior: prior, Hist: []int{vi}, Src: src}
 					if e.unspec(prior, c.Hist) {
 						rep.Unspec(1)
@@ -574,7 +747,7 @@ func runParts() {
 			for prior := -1; prior < e.n+e.np; prior++ {
 				for v1 := 0; v1 < e.n; v1++ {
 					for v2 := 0; v2 < e.n; v2++ {
-						for src := 0; src < 2; src++ {
+						for src := 0; src < tripleSrcKinds; src++ {
 							c := Case{Part: "dec", Shape: e.name, Prior: prior, Hist: []int{v1, v2}, Src: src}
 							if e.unspec(prior, c.Hist) {
 								rep.Unspec(1)
@@ -649,11 +822,31 @@ func runParts() {
 	}
 	rep.Count("scan_items(shape,value)", int64(k))
 	rep.Count("scan_cases(field list x id)", scanCases)
-	distinct := encCases + decCases + scanCases
+
+	// build: every ordered triple of items, one WriteField+Packet step per item on one Builder
+	var buildCases int64
+	engine.ParallelFor(k, func(slot, first int) {
+		var bc int64
+		for x := 0; x < k; x++ {
+			for y := 0; y < k; y++ {
+				c := Case{Part: "build", ID: 7, Items: []Item{
+					{items[first].e.name, items[first].vi}, {items[x].e.name, items[x].vi}, {items[y].e.name, items[y].vi}}}
+				record(c, judgeBuild(c))
+				bc++
+			}
+		}
+		atomic.AddInt64(&buildCases, bc)
+	})
+	rep.Count("build_cases(ordered triple of items, WriteField+Packet per item on one Builder)", buildCases)
+	rep.Extra("writer_kinds", writerKinds)
+	rep.Extra("source_kinds", srcKinds)
+	rep.Extra("slice_prior_states", "nil, spare capacity above every value (empty, short), longer, spare capacity BELOW the value (len<cap<value: byte slices cap 2/3/127, BitSet cap 2/3/127, Ary cap 2)")
+	rep.Extra("string_domain", "bound is 32767 UTF-16 code units: values of 32767 units with 1/2/3/4-byte characters (up to 98301 bytes)")
+	distinct := encCases + decCases + scanCases + buildCases
 	rep.NonTrivial(distinct)
 	rep.AddStates(distinct)
 	rep.Extra("combinator_child_alphabet", kcTrim)
-	rep.Extra("history", map[bool]string{false: "pairs (prior state, value)", true: "pairs, and triples (prior state, v1, v2) for shapes with alphabet <= 64"}[thorough])
+	rep.Extra("history", map[bool]string{false: "pairs (prior state, value)", true: "pairs, and triples (prior state, v1, v2) for shapes with alphabet <= 64 (triples on source kinds bytereader and plain)"}[thorough])
 }
 
 func selftest() {
@@ -711,7 +904,7 @@ func replay() {
 		kcTrim = c.KC // alphabet indexes in the case refer to the tier that recorded it
 	}
 	buildShapes()
-	fmt.Printf("replaying %s %s prior=%d hist=%v src=%d value=%d fields=%v\n", c.Part, c.Shape, c.Prior, c.Hist, c.Src, c.Value, c.Items)
+	fmt.Printf("replaying %s %s prior=%d hist=%v src=%d value=%d writer=%d fields=%v\n", c.Part, c.Shape, c.Prior, c.Hist, c.Src, c.Value, c.W, c.Items)
 	if e := shapeIndex[c.Shape]; e != nil && c.Part == "dec" {
 		fmt.Println("  " + e.human(c.Prior, c.Hist))
 		for _, vi := range c.Hist {
@@ -725,19 +918,20 @@ func replay() {
 }
 
 func finish() {
-	ops := atomic.LoadInt64(&encOps) + atomic.LoadInt64(&decOps) + atomic.LoadInt64(&scanOps)
+	ops := atomic.LoadInt64(&encOps) + atomic.LoadInt64(&decOps) + atomic.LoadInt64(&scanOps) + atomic.LoadInt64(&buildOps)
 	rep.Eval(ops)
-	rep.AddTrans(atomic.LoadInt64(&encOps) + atomic.LoadInt64(&decOps) + 4*atomic.LoadInt64(&scanOps))
+	rep.AddTrans(atomic.LoadInt64(&encOps) + atomic.LoadInt64(&decOps) + 5*atomic.LoadInt64(&scanOps) + 6*atomic.LoadInt64(&buildOps))
 	rep.AddTraces(ops)
 	rep.Count("WriteTo_executions", encOps)
 	rep.Count("ReadFrom_executions", decOps)
 	rep.Count("Marshal+Builder+Scan_executions", scanOps)
+	rep.Count("Builder_history_executions", buildOps)
 	rep.Finish()
 }
 
 func main() {
 	rep = engine.NewReport("C06")
-	rep.Rule = "enc: one case per (shape, alphabet value); dec: one case per (shape, prior state of the destination, value history, source kind) where prior states are the zero value, every alphabet value and the explicit slice states (nil, spare capacity with stale tail, longer) at every nesting level; scan: one case per (ordered field list of length <= 3 over (shape,value) items, packet id). All cases reach the codec (non-trivial); enumeration is injective, so counts are of distinct cases. evaluations = WriteTo + ReadFrom + (Marshal,Builder,Scan) executions"
+	rep.Rule = "enc: one case per (shape, alphabet value, writer kind); dec: one case per (shape, prior state of the destination, value history, source kind) where prior states are the zero value, every alphabet value and the explicit slice states (nil, spare capacity with stale tail, longer) at every nesting level; scan: one case per (ordered field list of length <= 3 over (shape,value) items, packet id); build: one case per ordered triple of items (three WriteField+Packet steps on one Builder). enc cases are per writer kind, dec cases per source kind (see writer_kinds, source_kinds). All cases reach the codec (non-trivial); enumeration is injective, so counts are of distinct cases. evaluations = WriteTo + ReadFrom + (Marshal,Builder,Scan) + Builder-history executions"
 	if rep.Thorough() {
 		kcTrim = 6
 	}
